@@ -71,6 +71,12 @@ pub fn outcome_json(spec: &Spec, out: &Outcome, with_obs: bool, with_orders: boo
         if log.stalls > 0 {
             *fired.entry("thread_stall".to_owned()).or_insert(0) += log.stalls;
         }
+        if log.waits > 0 {
+            *fired.entry("timed_wait_scaled".to_owned()).or_insert(0) += log.waits;
+        }
+        if log.short_reads > 0 {
+            *fired.entry("file_short_read".to_owned()).or_insert(0) += log.short_reads;
+        }
         clock_reads += log.clock_reads;
         pid_reads += log.pid_reads;
     }
